@@ -54,6 +54,7 @@ conf() {
     C06) PKG=c06;;
     C07) PKG=c07;;
     C08) PKG=c08;;
+    C09) PKG=c09;;
     C10) PKG=c10;;
     C11) PKG=c11;;
     C12) PKG=c12; RACE=1; QLIM=1500;;
@@ -66,7 +67,7 @@ conf() {
   QT="${QT}"; return 0
 }
 
-ALL_IDS="C01 C02 C03 C04 C05 C06 C07 C08 C10 C11 C12 C13 C14 C19 C20"
+ALL_IDS="C01 C02 C03 C04 C05 C06 C07 C08 C09 C10 C11 C12 C13 C14 C19 C20"
 
 build_one() { # id -> builds $BIN
   conf "$1" || { echo "check.sh: unknown property $1" >&2; return 2; }
